@@ -26,6 +26,7 @@ Step(e) ==
     [] e.ev = "get"   -> Get(e.loc, e.i)
     [] e.ev = "shift" -> Shift(e.loc)
     [] e.ev = "mut"   -> ClientMutate(e.k)
+    [] e.ev \in {"oset", "oshift"} -> OtherOp
 
 TNext ==
   \E i \in 1..Len(Graph.edges[node]) :
